@@ -378,6 +378,15 @@ inductive Feat (R : Type) where
   | time (x : Mat (List Int))          -- [B][C][7]
   | emb (offset : List Nat) (values : Mat R)   -- MultiEmbeddingTensor storage
 
+/-- `tf[idx]` restricted to one stype block, on the cell level (that the ragged containers implement
+    this selection is property C05) -/
+def Feat.selectRows {R : Type} (idx : List Nat) : Feat R → Feat R
+  | .num x => .num (Enc.selectRows idx x)
+  | .cat x => .cat (Enc.selectRows idx x)
+  | .bags x => .bags (Enc.selectRows idx x)
+  | .time x => .time (Enc.selectRows idx x)
+  | .emb off vals => .emb off (Enc.selectRows idx vals)
+
 /-- learnable parameters, as exported from `state_dict` -/
 inductive Weights (R : Type) where
   | linear (weight bias : Mat R)
